@@ -35,10 +35,20 @@
   off, reproducing the stalls of the pinned tree (F8 reader, F8a writer, F9 in-flight leak,
   F10 lost callback).
 
+  THE COMPOSED CONNECTION (last section; open system SimVerif/StreamSys.lean: writer + reader +
+  the network as a bag of in-flight packets, histories restricted by the drop side condition
+  `TS.okRun` of SimVerif/StreamQuiesce.lean — the abstraction of "tail-drop queues able to hold
+  one full segment, payload one direction at a time"; histories without drops = unbounded
+  queues satisfy it trivially): `C06_no_orphan_resend`, `C06_writer_not_blocked_at_quiescence`,
+  `C06_reader_not_stranded_at_quiescence`, `C06_quiescent_all_delivered`, with witnesses that
+  the side condition and each repair are necessary.
+
   WHAT REMAINS UNPROVED for the full statement: see the comment at the end of the file.
 -/
 import SimVerif.Lemmas.TcpProgress
 import SimVerif.Props.C10
+import SimVerif.Lemmas.StreamQuiesce
+import SimVerif.TcpEx
 
 namespace SimVerif
 open Prog
@@ -456,33 +466,335 @@ theorem C06_tail_drop_queue_nonempty (c : QCfg) (hc : c.WF) (ls : List QLbl) (h 
   rw [hacc] at this
   omega
 
+end SimVerif
+
+/-! ## the composed connection: quiescence
+
+  Open system `TS` (SimVerif/StreamSys.lean): writer `c.a`, reader `c.b`, the network a bag of
+  in-flight packets with `deliver i` / `drop i`, the writer's loops one iteration per `run`.
+  `TS.Quiescent s` = the bag is empty and no loop is in progress: nothing can happen without a
+  new API call. All theorems are about EVERY history `ls` from ANY established start state
+  (`TcpStartQ`: handshake complete on both sides, both sockets attached to an existing channel,
+  window account zero, `0 < mss ≤ cwnd`) that satisfies the drop side condition `TS.okRun`
+  (SimVerif/StreamQuiesce.lean: a drop that takes effect leaves another packet of the
+  connection in the network, or happens inside a writer loop that still sends), while both
+  sockets stay open (`closed = false`: no `close()` of the writer took effect; the system has no
+  label closing the reader). Hypotheses on the repair switches are stated per theorem; the
+  default `TParams` (`{}`) satisfies them, and for each switch a witness shows what goes wrong
+  without it. (`rearmDrop` plays no role here: the open system does not model the silent loss
+  of a packet without drop callback — `drop i` on such a packet is a no-op — see
+  `C06_retransmission_keeps_callback` / `C06_asis_retransmission_unreported` above for that
+  repair.) -/
+
+namespace SimVerif
+
+/-- **No orphan retransmission.** While segments wait for retransmission, a packet of the
+    connection is in the network (every packet in the bag is a segment of the writer or an ACK
+    on its way to the writer) or a writer loop that will still send is in progress — so the
+    simulation is never quiescent while dropped segments wait unsent. Needs the in-flight
+    release on drop (`C06_asis_orphan_resend`) and the side condition (`C06_dropOk_necessary`). -/
+theorem C06_no_orphan_resend (c : TcpCfg) (n : NetSt) (h : TcpStartQ c n) (hD : c.tp.releaseOnDrop = true)
+    (ls : List TLbl) (hok : TS.okRun c (TS.init c n) ls) :
+    let s := TS.run c (TS.init c n) ls
+    s.closed = false →
+    ∃ sa, s.net.tcp? c.a = some sa
+      ∧ (sa.resend ≠ [] → s.bag ≠ [] ∨ s.ctl.willSend = true)
+      ∧ (s.Quiescent → sa.resend = []) := by
+  intro s hc
+  obtain ⟨sa, sb, hq, hJ, _⟩ := QLive.reach hD h ls hok hc
+  refine ⟨sa, hq.hsa, hJ, ?_⟩
+  intro hqs
+  cases hr : sa.resend with
+  | nil => rfl
+  | cons p rest =>
+    exfalso
+    rcases hJ (by rw [hr]; simp) with x | x
+    · exact x hqs.1
+    · rw [hqs.2] at x; simp [TCtl.willSend] at x
+
+/-- **The writer is not blocked at quiescence.** Outside the ACK path a parked write
+    (`m_send_handler` set; the handshake is complete throughout) means the window is full or
+    segments wait for retransmission; at quiescence nothing is in flight (`inFlight = 0`) and no
+    write is parked. Needs the writer wake-up repair (`C06_asis_writer_parked_at_quiescence`). -/
+theorem C06_writer_not_blocked_at_quiescence (c : TcpCfg) (n : NetSt) (h : TcpStartQ c n)
+    (hD : c.tp.releaseOnDrop = true) (hF : c.tp.wakeWriterFixed = true)
+    (ls : List TLbl) (hok : TS.okRun c (TS.init c n) ls) :
+    let s := TS.run c (TS.init c n) ls
+    s.closed = false →
+    ∃ sa, s.net.tcp? c.a = some sa ∧ sa.connectH = none
+      ∧ (s.ctl.inAck = false → sa.sendH.isSome = true → sa.inFlight + sa.mss > sa.cwnd ∨ sa.resend ≠ [])
+      ∧ (s.Quiescent → sa.sendH = none ∧ sa.inFlight = 0) := by
+  intro s hc
+  obtain ⟨sa, sb, hq, hJ, hW⟩ := QLive.reach hD h ls hok hc
+  refine ⟨sa, hq.hsa, hq.pure.connA, hW hF, ?_⟩
+  intro hqs
+  refine ⟨?_, hq.pure.empty_zero hqs.1⟩
+  cases hs : sa.sendH with
+  | none => rfl
+  | some op =>
+    exfalso
+    have hi : s.ctl.inAck = false := by rw [hqs.2]; rfl
+    rcases hW hF hi (by rw [hs]; rfl) with x | x
+    · exact hq.pure.empty_notFull hqs.1 x
+    · rcases hJ x with y | y
+      · exact y hqs.1
+      · rw [hqs.2] at y; simp [TCtl.willSend] at y
+
+/-- **The reader is not stranded.** At every label boundary — in particular at quiescence — a
+    pending read or wait-for-read means the reader's incoming queue is EMPTY: no deliverable
+    byte is queued. Needs the reader wake-up repair (`C06_asis_reader_stranded_at_quiescence`). -/
+theorem C06_reader_not_stranded_at_quiescence (c : TcpCfg) (n : NetSt) (h : TcpStartQ c n)
+    (hD : c.tp.releaseOnDrop = true) (hR : c.tp.wakeReaderFixed = true)
+    (ls : List TLbl) (hok : TS.okRun c (TS.init c n) ls) :
+    let s := TS.run c (TS.init c n) ls
+    s.closed = false →
+    ∃ sb, s.net.tcp? c.b = some sb
+      ∧ ((sb.recvH.isSome = true ∨ sb.waitRecvH.isSome = true) → sb.inq = []) := by
+  intro s hc
+  obtain ⟨sa, sb, hq, _, _⟩ := QLive.reach hD h ls hok hc
+  exact ⟨sb, hq.hsb, (hq.pure.rd hR).pend⟩
+
+/-- **At quiescence everything written is at the reader.** Nothing waits for retransmission,
+    the reader has received every segment in order (`nextIn = nextOut` = the number of segments
+    created), what completed writes reported is what was written, and every byte written is
+    delivered or queued for the next read: `written = delivered ++ queued`. If a read is
+    pending (reader wake-up repair in place) nothing is queued: `delivered = written`. -/
+theorem C06_quiescent_all_delivered (c : TcpCfg) (n : NetSt) (h : TcpStartQ c n)
+    (hD : c.tp.releaseOnDrop = true) (ls : List TLbl) (hok : TS.okRun c (TS.init c n) ls) :
+    let s := TS.run c (TS.init c n) ls
+    s.closed = false → s.Quiescent →
+    ∃ sa sb, s.net.tcp? c.a = some sa ∧ s.net.tcp? c.b = some sb
+      ∧ sa.resend = [] ∧ sb.nextIn = sa.nextOut ∧ sa.nextOut = s.segs.length
+      ∧ s.accepted = s.written
+      ∧ s.written = s.delivered ++ bytesOf sb.inq
+      ∧ (c.tp.wakeReaderFixed = true → (sb.recvH.isSome = true ∨ sb.waitRecvH.isSome = true) →
+          s.delivered = s.written) := by
+  intro s hc hqs
+  obtain ⟨sa, sb, hq, hJ, _⟩ := QLive.reach hD h ls hok hc
+  have hT := TInv.reach h.toTcpStart ls
+  have hres : sa.resend = [] := by
+    cases hr : sa.resend with
+    | nil => rfl
+    | cons p rest =>
+      exfalso
+      rcases hJ (by rw [hr]; simp) with x | x
+      · exact x hqs.1
+      · rw [hqs.2] at x; simp [TCtl.willSend] at x
+  obtain ⟨sa', hsa', hao⟩ := hT.core.exA
+  rw [hq.hsa] at hsa'; cases hsa'
+  obtain ⟨sb', hsb', hbq⟩ := hT.core.exB
+  rw [hq.hsb] at hsb'; cases hsb'
+  have hcs : s.closed = false := hc
+  have hno : sa.nextOut = s.segs.length := (hao.live hcs).1
+  have hge : sa.nextOut ≤ sb.nextIn := by
+    apply Nat.le_of_not_lt
+    intro hlt
+    rcases hq.pure.whereK _ hlt with a | a | a
+    · rw [hqs.1] at a; simp [Prog.ids] at a
+    · rw [hres] at a; simp [Prog.ids] at a
+    · rcases a with a | a
+      · omega
+      · have hd := hq.pure.drained
+        obtain ⟨e, he, hk⟩ := List.mem_map.mp a
+        have hne := List.lookup_eq_none_iff.mp hd e he
+        simp [hk] at hne
+  have hle : sb.nextIn ≤ s.segs.length := by
+    have := hbq.bound
+    rw [hcs] at this; simpa using this
+  have hnx : sb.nextIn = sa.nextOut := by omega
+  have hacc : s.accepted = s.written := by
+    have := hT.ctl
+    rw [hqs.2] at this
+    exact this.symm
+  have hlen : s.segs.length ≤ sb.nextIn := by rw [← hno]; exact hge
+  have hw : s.written = s.delivered ++ bytesOf sb.inq := by
+    rw [hbq.bytes, List.take_of_length_le hlen, hT.core.flat]
+  refine ⟨sa, sb, hq.hsa, hq.hsb, hres, hnx, hno, hacc, hw, ?_⟩
+  intro hR hp
+  rw [hw, (hq.pure.rd hR).pend hp]; simp
+
+/-- **Unbounded queues**: a history without any drop satisfies the side condition, so the
+    quiescence clauses hold for any traffic pattern. -/
+theorem C06_quiescent_all_delivered_unbounded (c : TcpCfg) (n : NetSt) (h : TcpStartQ c n)
+    (hD : c.tp.releaseOnDrop = true) (ls : List TLbl) (hnd : ∀ l ∈ ls, l.isDrop = false) :
+    let s := TS.run c (TS.init c n) ls
+    s.closed = false → s.Quiescent →
+    ∃ sb, s.net.tcp? c.b = some sb ∧ s.accepted = s.written ∧ s.written = s.delivered ++ bytesOf sb.inq := by
+  intro s hc hqs
+  obtain ⟨_, sb, _, h2, _, _, _, h6, h7, _⟩ :=
+    C06_quiescent_all_delivered c n h hD ls (TS.okRun_of_noDrop c ls hnd _) hc hqs
+  exact ⟨sb, h2, h6, h7⟩
+
+/-- the ctl-free form of the side condition suffices: every drop that takes effect leaves at
+    least one other packet of the connection in the network (`TS.okRunStrong`) -/
+theorem C06_no_orphan_resend_strong (c : TcpCfg) (n : NetSt) (h : TcpStartQ c n) (hD : c.tp.releaseOnDrop = true)
+    (ls : List TLbl) (hok : TS.okRunStrong c (TS.init c n) ls) :
+    let s := TS.run c (TS.init c n) ls
+    s.closed = false → s.Quiescent → ∃ sa, s.net.tcp? c.a = some sa ∧ sa.resend = [] := by
+  intro s hc hqs
+  obtain ⟨sa, h1, _, h3⟩ := C06_no_orphan_resend c n h hD ls (TS.okRun_of_okRunStrong c ls _ hok) hc
+  exact ⟨sa, h1, h3 hqs⟩
+
+/-! ### witnesses (MSS 3, window 6: the state `TcpEx.n0`) -/
+
+namespace QEx
+open TcpEx
+
+/-- (side condition holds, quiescent, both open), ids waiting for retransmission + write parked,
+    (read or wait pending, packets queued), delivered, written -/
+def qview (c : TcpCfg) (ls : List TLbl) :
+    (Bool × Bool × Bool) × Option (List Nat × Bool) × Option (Bool × Nat) × List UInt8 × List UInt8 :=
+  let s := TS.run c (TS.init c n0) ls
+  ((decide (TS.okRun c (TS.init c n0) ls), decide s.Quiescent, !s.closed),
+   (s.net.tcp? c.a).map (fun t => (t.resend.map (·.id), t.sendH.isSome)),
+   (s.net.tcp? c.b).map (fun t => (t.recvH.isSome || t.waitRecvH.isSome, t.inq.length)),
+   s.delivered, s.written)
+
+theorem startQ : TcpStartQ c n0 := (established_startQ _ _ _ _ _ _ (by decide) (by decide) (by decide)).1
+
+/-- the history of SimVerif/TcpEx.lean up to the close: segment 0 handed back by the first hop
+    INSIDE the segmentation loop (the bag is empty after the drop, but the loop still sends:
+    `willSend`), segment 1 overtakes, its ACK retransmits segment 0, a pending 2-byte read is
+    completed by the arrival, the rest is read non-blocking -/
+def histOk : List TLbl := [
+  .read { h := 7, caps := [1, 1] },
+  .write 0 { h := 1, bufs := [[1, 2, 3, 4], [5, 6]], stream := 0, off := 0 },
+  .drop 0 none, .run 0, .run 0,
+  .deliver 0 0 none, .deliver 0 0 none, .run 0, .run 0,
+  .deliver 0 0 none, .deliver 0 0 none, .run 0,
+  .readNb [10]]
+
+/-- two segments out, the loop over; segment 0 is handed back while segment 1 is still in the
+    network (the strong form of the side condition); the ACK of segment 1 retransmits it -/
+def histOk2 : List TLbl := [
+  .write 0 { h := 1, bufs := [[1, 2, 3, 4]], stream := 0, off := 0 }, .run 0, .run 0,
+  .drop 0 none,
+  .deliver 0 0 none, .deliver 0 0 none, .run 0, .run 0,
+  .deliver 0 0 none, .deliver 0 0 none, .run 0,
+  .read { h := 7, caps := [10] }]
+
+/-- non-vacuity: histories WITH drops that satisfy the side condition and end quiescent, both
+    sockets open, nothing waiting for retransmission, everything written delivered -/
+example : qview c histOk = ((true, true, true), some ([], false), some (false, 0), [1, 2, 3, 4], [1, 2, 3, 4]) := by
+  decide +kernel
+example : qview c histOk2 = ((true, true, true), some ([], false), some (false, 0), [1, 2, 3, 4], [1, 2, 3, 4]) := by
+  decide +kernel
+example := C06_quiescent_all_delivered c n0 startQ rfl histOk (by decide +kernel) (by decide +kernel) (by decide +kernel)
+example := C06_no_orphan_resend c n0 startQ rfl histOk2 (by decide +kernel) (by decide +kernel)
+/-- … and a state in the middle where segment 0 DOES wait for retransmission while segment 1 is
+    in the network (the hypothesis of `C06_no_orphan_resend` is not vacuous) -/
+example : qview c (histOk2.take 4) = ((true, false, true), some ([0], false), some (false, 0), [], [1, 2, 3, 4]) := by
+  decide +kernel
+
+/-- one segment out, handed back with nothing else of the connection in the network -/
+def histOrphan : List TLbl :=
+  [.write 0 { h := 1, bufs := [[1, 2, 3]], stream := 0, off := 0 }, .run 0, .drop 0 none]
+
+end QEx
+
+/-- **The side condition is necessary**: all repairs in place, the only packet in flight is
+    dropped (the history violates `TS.okRun`): the system is quiescent with segment 0 waiting
+    for retransmission forever, the 3 bytes a completed write reported never reach the reader.
+    (The library has no retransmission timer: only an ACK runs the retransmission loop.) -/
+theorem C06_dropOk_necessary :
+    QEx.qview TcpEx.c QEx.histOrphan = ((false, true, true), some ([0], false), some (false, 0), [], [1, 2, 3]) := by
+  decide +kernel
+
+namespace QEx
+open TcpEx
+
+def cNoRelease : TcpCfg := { c with tp := { releaseOnDrop := false } }
+def cNoWakeW : TcpCfg := { c with tp := { wakeWriterFixed := false } }
+def cNoWakeR : TcpCfg := { c with tp := { wakeReaderFixed := false } }
+
+/-- two full segments out; segment 0 handed back while segment 1 is in the network; segment 1
+    delivered and ACKed -/
+def histLeak : List TLbl := [
+  .write 0 { h := 1, bufs := [[1, 2, 3, 4, 5, 6]], stream := 0, off := 0 }, .run 0, .run 0,
+  .drop 0 none, .deliver 0 0 none, .deliver 0 0 none, .run 0, .run 0]
+
+/-- segments [1,2,3] and [4] out; segment 0 handed back (window 3), a second write parks;
+    segment 1 ACKed (retransmits segment 0), segment 0 ACKed -/
+def histWriter : List TLbl := [
+  .write 0 { h := 1, bufs := [[1, 2, 3], [4]], stream := 0, off := 0 }, .run 0, .run 0,
+  .drop 0 none, .write 0 { h := 2, bufs := [[9]], stream := 0, off := 4 },
+  .deliver 0 0 none, .deliver 0 0 none, .run 0, .run 0, .deliver 0 0 none, .deliver 0 0 none, .run 0]
+
+/-- a read is pending; segment 1 overtakes segment 0; both ACKs arrive -/
+def histReader : List TLbl := [
+  .read { h := 7, caps := [10] },
+  .write 0 { h := 1, bufs := [[1, 2, 3, 4]], stream := 0, off := 0 }, .run 0, .run 0,
+  .deliver 0 1 none, .deliver 0 0 none, .deliver 0 0 none, .run 0, .deliver 0 0 none, .run 0]
+
+end QEx
+
+/-- **As-is (F9, `releaseOnDrop := false`)**: the history satisfies the side condition; the
+    3 bytes of the dropped segment stay counted as in flight, so after the last ACK the
+    retransmission does not fit the halved window: quiescent with segment 0 unsent. -/
+theorem C06_asis_orphan_resend :
+    QEx.qview QEx.cNoRelease QEx.histLeak
+      = ((true, true, true), some ([0], false), some (false, 0), [], [1, 2, 3, 4, 5, 6]) := by
+  decide +kernel
+
+/-- the same history with the repair: the ACK retransmits segment 0 (not quiescent) -/
+example : QEx.qview TcpEx.c QEx.histLeak
+    = ((true, false, true), some ([], false), some (false, 0), [], [1, 2, 3, 4, 5, 6]) := by
+  decide +kernel
+
+/-- **As-is (F8a, `wakeWriterFixed := false`)**: every ACK arrives while the window is still
+    full before it; quiescent with the write `h2` parked although nothing is in flight. -/
+theorem C06_asis_writer_parked_at_quiescence :
+    QEx.qview QEx.cNoWakeW QEx.histWriter
+      = ((true, true, true), some ([], true), some (false, 2), [], [1, 2, 3, 4]) := by
+  decide +kernel
+
+/-- with the repair the last ACK re-runs the parked write (its segment is out: not quiescent) -/
+example : QEx.qview TcpEx.c QEx.histWriter
+    = ((true, false, true), some ([], false), some (false, 2), [], [1, 2, 3, 4, 9]) := by
+  decide +kernel
+
+/-- **As-is (F8, `wakeReaderFixed := false`)**: the reorder buffer releases two segments at
+    once; quiescent with the read pending and both segments queued. -/
+theorem C06_asis_reader_stranded_at_quiescence :
+    QEx.qview QEx.cNoWakeR QEx.histReader
+      = ((true, true, true), some ([], false), some (true, 2), [], [1, 2, 3, 4]) := by
+  decide +kernel
+
+/-- with the repair the read completes with all four bytes -/
+example : QEx.qview TcpEx.c QEx.histReader
+    = ((true, true, true), some ([], false), some (false, 0), [1, 2, 3, 4], [1, 2, 3, 4]) := by
+  decide +kernel
+
 /-
   WHAT REMAINS UNPROVED for the full statement of C06.
 
   1. Liveness proper ("eventually delivered", under fair timing) — not attempted (DESIGN §5).
+     What is proved instead is its safety core: a history that ends quiescent has everything
+     written at the reader (`C06_quiescent_all_delivered`), and quiescence with a pending read /
+     parked write / waiting retransmission is impossible.
 
-  2. `C06_no_orphan_resend`: at quiescence `resend ≠ [] → something of the connection is still
-     in the network`. The socket-level invariants above give, unconditionally:
-       * after every ACK processed without synchronous hand-backs: `resend ≠ [] → 0 < inFlight`
-         (`C06_resend_drains`), and `0 < inFlight → some segment is in `bag` or its ACK in
-         `acks`` (`C06_in_flight_account`);
-       * a parked writer with `resend = []` has `0 < inFlight` (`C06_writer_not_stranded`).
-     What is missing is the state right after a hand-back (`dropped`, or a hand-back inside a
-     loop): there `resend ≠ []` holds with possibly `inFlight = 0` (the only outstanding segment
-     was handed back), and `packet_dropped` neither retransmits nor wakes the writer. The
-     mechanism does NOT exclude this; the property text excludes it by its side conditions,
-     through the network: a hand-back is a tail-drop by a queue of capacity ≥ one segment,
-     hence (`C06_tail_drop_queue_nonempty`) another packet is in that queue — with one
-     direction at a time and no foreign traffic, a segment of this connection, still in `bag`.
-     Formalising this needs the COMPOSED system (sender + the route's queues from
-     SimVerif/QueueSys.lean instead of the free `bag`), with the composed invariant
-     "every hand-back label is justified by a `TailDrop` of a queue on `hops`, whose items are
-     segments of `bag`". That composition is not done here.
-     (Against an arbitrary network the statement is false: `histRearm.take 4` followed by
-     nothing — one segment out, handed back, nothing else in flight — strands the retransmission.)
+  2. The drop side condition `TS.okRun` is an ASSUMPTION about the network, justified — not
+     derived — from the property's side conditions: `C06_tail_drop_queue_nonempty` shows that a
+     queue able to hold the segment drops it only when another packet is queued; that this
+     packet belongs to the same connection and direction (hence is in the bag) is the content
+     of "one direction at a time, no foreign traffic". Deriving `TS.okRun` inside Lean needs the
+     composition of `TS` with the route's queues (SimVerif/QueueSys.lean) in place of the free
+     bag; that composition is not done.
 
-  3. `C06_quiescent_complete` (delivered = written at quiescence) needs C05's payload identity on
-     top of the above; the bags here carry sizes and sequence numbers only.
+     NOTE (checked on the real library and on the Lean world model, scenario
+     corpus/_defects/c06_sole_segment_dropped.scn): the side condition is really about the
+     CONNECTION's packets, not about queue capacities alone. Two connections from the same node
+     sharing one finite outgoing queue (capacity 1600 ≥ one full segment), each writing ONE
+     1475-byte segment 28 µs apart: the second connection's only segment is tail-dropped by the
+     queue holding the first connection's segment; both writes report 1475 bytes accepted, the
+     second reader never gets them, `run()` returns — the library has no retransmission timer.
+     That history violates `TS.okRun` (nothing else of the second connection is in the network),
+     exactly like `C06_dropOk_necessary`; the property's wording excludes it only if "payload
+     one direction at a time on the connection" is read as "no other traffic in the queues".
+
+  3. Both sockets open: after the writer's `close()` the model discards what waits for
+     retransmission and ignores later hand-backs (the channel is gone), so bytes accepted
+     before the close can be lost — the theorems are stated for `closed = false` only.
 -/
 
 end SimVerif
